@@ -210,6 +210,18 @@ PROPERTIES.update({
                        "in that mode -- and receiving never flips the mode. On the real State::set_read_only: the mode becomes the argument; leaving read-only mode arms needs_reset and keeps the peer's capabilities; "
                        "entering it keeps shared_heads / sent_hashes.",
     },
+    "C29": {
+        "level": "proof",
+        "verus": [("u16_autocommit", ["ensure_transaction_open", "ensure_transaction_closed", "commit_with", "empty_change", "get_heads", "isolate", "integrate"])],
+        "kani": [],
+        "not_under_contract": ["reads inside an isolated scope (clock-scoped reads over the op set: Automerge::get_at / keys_at / ...; first clause)", "Automerge::transaction_at / isolate_actor and TransactionInner (assumed: transaction_args(heads) computes deps = heads; "
+                               "insert_local_op's reset_top under scope)", "what integrate merges (third clause: the document after integrate equals the merge of the isolated changes)", "Transaction-level (non-AutoCommit) API"],
+        "trusted": ["Automerge::transaction_args(heads) scopes the transaction to exactly `heads` (assumed contract; proved for its deps computation against the change graph accessors in U10)", "TransactionInner::commit returns the hash of the change it made, if any"],
+        "assumptions": ["C29 is claimed for the AutoCommit-level bookkeeping of its second clause only: which heads an isolated transaction is scoped to and how the isolated view moves; the read semantics and the merge on integrate are not_under_contract"],
+        "explanation": "Verus proves on the real AutoCommit methods, with a representation invariant over ghost state: after isolate(h) the document is isolated at exactly h, for every h; an open transaction is always scoped to the CURRENT "
+                       "isolation heads (it is opened with transaction_args(isolation) and every method that could change the heads flushes it first); committing inside isolation moves the isolated view to exactly the change just "
+                       "committed (so the isolated chain is linear and later transactions depend on it alone) and never leaves or enters isolation; get_heads reports the isolation heads while isolated; integrate ends isolation.",
+    },
     "C10": {
         "level": "proof",
         "verus": [("u03_chunk", "*"), ("u24_changeparse", ["parse_following_header", "verify_ops", "actor_id", "lemma_contk"])],
@@ -390,7 +402,6 @@ NOT_APPLICABLE = {
     "C26": DOC + "cursor resolution walks the op set",
     "C27": "Myers diff kernel: CBMC does not finish 2x2 inputs in 10 min, Verus cannot take the generic Index operands/iterator adaptors; update_object is document level",
     "C28": DOC + "rollback rewrites the op set",
-    "C29": DOC + "isolation scopes reads by clock over the op set",
     "C31": "whole-history transformation",
     "C33": "end-to-end through AutoCommit, save, load and the CLI",
     "C34": "slab/B-tree structures exceed CBMC at 3 elements and are not Verus-able",
